@@ -3,6 +3,7 @@ import json
 from harness.enc import IdMap, tag, untag, table_from, proj_table
 from harness.core import Machinery
 from harness.x_regroup_session import obs_session
+from harness.x_regroup_big import obs_scale, describe, VIAS
 from pyg_base import dictable, cmp, first, last
 
 AGG = {'list': None, 'len': len, 'first': first, 'last': last}
@@ -185,6 +186,65 @@ def sessions(ctx):
     ctx.sample({'observation_session': obs[len(obs) // 2]})
 
 
+BYS = (['a'], ['a', 'b'], ['b', 'a'])
+POSC = ('early', 'middle', 'late')
+AGGS = ('last', 'list', 'len', 'first')
+
+
+def scaled(ctx):
+    """size thresholds (RegroupBig.tla / MC_RegroupB.tla): TLC enumerates the patterns, the odd keys and the key choices and checks
+    the scaling law against the relational verdicts on 2-4 copies; the driver scales every (pattern, odd key) to 17 ... 1030 rows,
+    the odd row early / in the middle / late (beyond rows 16, 64, 100, 256, 1024), calls the real code; Trace_Regroup judges"""
+    ctx.mc('MC_RegroupB', 'MC_RegroupB_quick.cfg' if ctx.quick else 'MC_RegroupB_thorough.cfg', coverage=not ctx.quick)
+    # regrouping by runs of the unsorted rows (one key cut into several groups) must be rejected by the scaling law
+    ctx.mc('MC_RegroupB', 'MC_RegroupB_split.cfg', must_fail='NeverSplit', coverage=False)
+    descs = ctx.generate('MC_RegroupB', 'MC_RegroupB_gen.cfg')
+    pairs = {}
+    for d in descs:
+        if set(d) != {'pat', 'odd', 'by'}:
+            raise Machinery('generator MC_RegroupB_gen printed a mangled description')
+        pairs.setdefault(json.dumps([d['pat'], d['odd']], sort_keys=True), set()).add(json.dumps(d['by']))
+    if any(bys != set(map(json.dumps, BYS)) for bys in pairs.values()):
+        raise Machinery('MC_RegroupB_gen: the key choices are not the ones the driver rotates through')
+    combos = [dict(zip(('pat', 'odd'), json.loads(k))) for k in sorted(pairs)]
+    plan = []          # (combo index, size, position class, salt)
+    for c, d in enumerate(combos):
+        if ctx.quick:
+            # every (pattern, odd key): the odd row LATE in a table of more than 100 rows, EARLY / in the MIDDLE of a smaller one
+            plan.append((c, (101, 130, 260)[c % 3] if c % 9 else 260, 'late', c))
+            plan.append((c, (17, 65)[c % 2], POSC[(c // 2) % 2], c + 1))
+            plan.append((c, (65, 17)[c % 2], POSC[1 + (c // 2) % 2], c + 2))
+            if c % 5 == 0: plan.append((c, 130, 'middle', c + 3))
+            if c % 16 == 3: plan.append((c, 1030, POSC[1 + (c // 16) % 2], c))
+        else:
+            for si, size in enumerate((17, 65, 101, 130, 260)):
+                for pi, pc in enumerate(POSC):
+                    for v in range(4 if size < 200 else 2):
+                        plan.append((c, size, pc, c + si + pi + v))
+            if c % 3 == 0: plan.append((c, 1030, POSC[(c // 3) % 3], c))
+    obs = []
+    for c, size, pc, salt in plan:
+        d = combos[c]
+        if not d['odd'] and pc != 'late':
+            continue
+        via = VIAS[salt % 4]
+        by = list(BYS[(salt // 4) % 3]) if via != 'pivot' else ['a']
+        sc = describe(d, size, ('repeat', 'block')[(salt // 2) % 2], pc)
+        o = obs_scale(sc, via, by, FORMS[(salt // 3) % 2], proj, agg=AGGS[(salt // 4) % 4] if via == 'pivot' else 'last',
+                      grp=('grp', 'sub')[(salt // 5) % 2], k=salt)
+        obs.append(o)
+        ctx.note(('scale', c, size, pc, via))
+    ctx.evals += len(obs)
+    for line, clause in ctx.validate('Trace_Regroup', obs):
+        o = obs[line - 1]
+        n = len(o['sc']['pat']['rows']) * o['sc']['k'] + len(o['sc']['odd'])
+        ctx.violation(clause, {'op': 'scale', 'via': o['via'], 'by': o['by'], 'form': o['form'], 'grp': o['grp'], 'agg': o['agg'], 'sc': o['sc'], 'rows': n},
+                      {'stage': o['stage'], 'raised': o['raised'], 'out_rows': len(o['out']['rows']), 'out_head': o['out']['rows'][:2] if n <= 130 else [],
+                       'inv_rows': len(o['inv']['rows'])})
+    small = min(obs, key=lambda o: len(json.dumps(o)))
+    ctx.sample({'observation_scaled': {k: (v if k not in ('out', 'inv', 'after') else {'cols': v['cols'], 'rows': v['rows'][:3]}) for k, v in small.items() if k != 'colcmp'}})
+
+
 def run(ctx):
     ctx.rule = ('TLC enumerates tables (<= 2-3 rows, key cells None/1/1.0/2/"s"/date/two NaN objects, unique id column) x key choices; '
                 'each is pushed through listby+unlist, groupby+ungroup and (decorated with y/z columns) pivot+unpivot in rotating spellings. '
@@ -286,6 +346,7 @@ def run(ctx):
         ctx.violation(clause, case, {k: o[k] for k in ('stage', 'out', 'unl', 'ung', 'unp', 'colcmp', 'raised', 'after') if k in o})
     ctx.sample({'observation': obs[1]})
     ctx.sample({'observation_pivot': next(o for o in reversed(obs) if o['op'] == 'pivot')})
+    scaled(ctx)
     sessions(ctx)
     ctx.exhaustive = False
     ctx.assumptions += ['key cells of results are compared with the key equality of the statement (a class shows one representative, 1 or 1.0)',
@@ -305,7 +366,8 @@ def run(ctx):
 
 def replay(ctx, body):
     c = body['case']
-    if c['op'] == 'session': o = obs_session({'init': c['init'], 'hist': c['hist'], 'plan': list(c.get('plan', ''))}, proj)
+    if c['op'] == 'scale': o = obs_scale(c['sc'], c['via'], c['by'], c.get('form', 'names'), proj, agg=c.get('agg', 'last'), grp=c.get('grp', 'grp'))
+    elif c['op'] == 'session': o = obs_session({'init': c['init'], 'hist': c['hist'], 'plan': list(c.get('plan', ''))}, proj)
     elif c['op'] == 'listby': o = obs_listby(c['t'], c['by'], c.get('form', 'names'), idcol=c.get('idcol', 'p'))
     elif c['op'] == 'groupby': o = obs_groupby(c['t'], c['by'], c.get('form', 'names'), c.get('grp', 'grp'))
     else: o = obs_pivot(c['t'], c['x'], c.get('form', 'list'), c['y'], c['z'], c['agg'], 0)
